@@ -343,6 +343,10 @@ class Scheduler:
                 cands.append(t)
         if not cands:
             timed = [t for t in self.threads if t.state == BLOCKED and t.deadline is not None]
+            if timed and not any(t.must_finish and t.state != FINISHED for t in self.threads):
+                # only background threads are left, all of them asleep: the scenario is over (a body that sleeps in a
+                # loop would otherwise keep the virtual clock running forever)
+                timed = []
             if timed:
                 # virtual time advances to the earliest deadline; every timer that expires at that instant fires
                 # (independent timers: all those threads become runnable and the schedule orders them)
